@@ -22,8 +22,8 @@ open Uquic.Oracle Uquic.Model.Reassembly Uquic.Spec.Reasm
 
 structure Ghost where
   salt : Nat := 0
-  window : Nat := 0
-  connWindow : Nat := 0
+  window : Nat := 1048576          -- the driver's defaults when a (shrunk) case has no `init` line
+  connWindow : Nat := 1099511627776
   recv : IvSet := []          -- bytes of frames the stream accepted
   rp : Nat := 0               -- bytes delivered to the reader so far (from the implementation's answers)
   final : Option Nat := none  -- established final size
@@ -42,8 +42,12 @@ structure Ghost where
   doneIds : List Nat := []
   completedSeen : Bool := false
 
+/-- the driver's default windows (used when a shrunk case has lost its `init` line) -/
+def defaultStream : RStream :=
+  { fc := { window := 1048576, windowSize := 1048576, conn := { window := 1099511627776, windowSize := 1099511627776 } } }
+
 structure St where
-  m : RStream := {}
+  m : RStream := defaultStream
   mdead : Bool := false
   g : Ghost := {}
 
